@@ -49,29 +49,66 @@ def host_ref(pattern, h):
 
 
 def leaf(iface, ident, log):
+    """The applications at the leaves are objects that are callable and - like an empty registry or collection - falsy."""
     if iface == "wsgi":
         from baize import wsgi as W
 
-        def app(environ, start_response):
-            dec = lambda v: v.encode("latin-1").decode("utf-8")  # WSGI-native strings -> text
-            log.append((ident, dec(environ.get("SCRIPT_NAME", "")), dec(environ.get("PATH_INFO", ""))))
-            return W.PlainTextResponse(json.dumps(ident))(environ, start_response)
-        return app
+        class App:
+            def __len__(self):
+                return 0
+
+            def __call__(self, environ, start_response):
+                dec = lambda v: v.encode("latin-1").decode("utf-8")  # WSGI-native strings -> text
+                log.append((ident, dec(environ.get("SCRIPT_NAME", "")), dec(environ.get("PATH_INFO", ""))))
+                return W.PlainTextResponse(json.dumps(ident))(environ, start_response)
+        return App()
     from baize import asgi as A
 
-    async def aapp(scope, receive, send):
-        log.append((ident, scope.get("root_path", ""), scope["path"]))
-        return await A.PlainTextResponse(json.dumps(ident))(scope, receive, send)
-    return aapp
+    class AApp:
+        def __len__(self):
+            return 0
+
+        async def __call__(self, scope, receive, send):
+            log.append((ident, scope.get("root_path", ""), scope["path"]))
+            return await A.PlainTextResponse(json.dumps(ident))(scope, receive, send)
+    return AApp()
 
 
-def build(iface, tree, log, ident=()):
-    """tree: list of (prefix, subtree|None). Returns app."""
+def user_mount(iface, prefix, app):
+    """A one-entry mount written by the application's author (no baize code): moves `prefix` from the path to the root path
+    and calls `app`, answers 404 when the path does not start with it."""
+    if iface == "wsgi":
+        def mw(environ, start_response):
+            p = environ.get("PATH_INFO", "")
+            raw = prefix.encode("utf-8").decode("latin-1")
+            if p == raw or p.startswith(raw + "/"):
+                environ["SCRIPT_NAME"] = environ.get("SCRIPT_NAME", "") + raw
+                environ["PATH_INFO"] = p[len(raw):]
+                return app(environ, start_response)
+            start_response("404 Not Found", [("content-type", "text/plain")])
+            return [b"no"]
+        return mw
+
+    async def amw(scope, receive, send):
+        p = scope["path"]
+        if p == prefix or p.startswith(prefix + "/"):
+            scope = dict(scope, root_path=scope.get("root_path", "") + prefix, path=p[len(prefix):])
+            return await app(scope, receive, send)
+        await send({"type": "http.response.start", "status": 404, "headers": [(b"content-type", b"text/plain")]})
+        await send({"type": "http.response.body", "body": b"no"})
+    return amw
+
+
+def build(iface, tree, log, ident=(), shim_depth=None):
+    """tree: list of (prefix, subtree|None). Returns app. shim_depth=d: one-entry tables at nesting depth d are realised by the
+    user-written mount instead of a Subpaths object (a foreign layer between two baize mounts)."""
     mod = __import__("baize.wsgi" if iface == "wsgi" else "baize.asgi", fromlist=["Subpaths"])
     entries = []
     for i, (prefix, sub) in enumerate(tree):
         me = ident + (i,)
-        entries.append((prefix, leaf(iface, list(me), log) if sub is None else build(iface, sub, log, me)))
+        entries.append((prefix, leaf(iface, list(me), log) if sub is None else build(iface, sub, log, me, shim_depth)))
+    if shim_depth is not None and len(ident) == shim_depth and len(entries) == 1:
+        return user_mount(iface, entries[0][0], entries[0][1])
     return mod.Subpaths(*entries)
 
 
@@ -188,6 +225,14 @@ def run_shard(desc, tier):
             app = build(iface, tree, log)
             for root, path in reqs + reqs[::-1]:
                 judge_mount(r, iface, app, tree, log, root, path)
+        if name == "deep":
+            # the same deep trees with a foreign one-entry mount as the middle layer
+            for tree in lst:
+                if any(sub is not None and len(sub) == 1 for _, sub in tree):
+                    log = []
+                    app = build(iface, tree, log, shim_depth=1)
+                    for root, path in reqs:
+                        judge_mount(r, iface, app, tree, log, root, path, shim=True)
         r.sample({"iface": iface, "tree": lst[-1], "request": reqs[5]})
     else:
         _, iface = desc
@@ -202,12 +247,12 @@ def run_shard(desc, tier):
     return r
 
 
-def judge_mount(r, iface, app, tree, log, root, path):
+def judge_mount(r, iface, app, tree, log, root, path, shim=False):
     del log[:]
     res, untouched = request(iface, app, root, path)
     r.count("evaluations")
     exp = ref_dispatch(tree, root, path)
-    w = {"kind": "mount", "iface": iface, "tree": tree, "root": root, "path": path}
+    w = {"kind": "mount", "iface": iface, "tree": tree, "root": root, "path": path, "shim": shim}
     if res.exc is not None:
         r.violation(f"mount-exception:{type(res.exc).__name__}", w, f"{iface} Subpaths {tree} on root={root!r} path={path!r} raised {res.exc!r:.150}")
     elif res.problems:
